@@ -852,3 +852,51 @@ Proof.
   - change (N.eqb APOS APOS) with true. cbn [andb]. rewrite (pass1 APOS name Hb), pass2. reflexivity.
   - change (N.eqb QT APOS) with false. change (N.eqb QT QT) with true. cbn [andb]. rewrite (pass1 QT name Hb), pass2. reflexivity.
 Qed.
+
+(* ------------------------------------------------------------------ sufficient conditions for "none of the regexes accepts the text" *)
+Lemma span_by_split : forall f s a b, span_by f s = (a, b) -> s = a ++ b /\ forallb f a = true.
+Proof.
+  intros f. induction s as [|c s IH]; intros a b H.
+  - cbn [span_by] in H. injection H as <- <-. split; reflexivity.
+  - cbn [span_by] in H. destruct (f c) eqn:Fc.
+    + destruct (span_by f s) as [a' b'] eqn:E. injection H as <- <-. destruct (IH a' b' eq_refl) as [-> Ha]. split; [reflexivity|].
+      cbn [forallb]. rewrite Fc, Ha. reflexivity.
+    + injection H as <- <-. split; reflexivity.
+Qed.
+Lemma strip_prefix_split : forall p s r, strip_prefix p s = Some r -> s = p ++ r.
+Proof.
+  induction p as [|c p IH]; intros s r H; [cbn in H; injection H as ->; reflexivity|]. destruct s as [|d s]; [discriminate|].
+  cbn [strip_prefix] in H. destruct (N.eqb_spec c d) as [->|]; [|discriminate]. cbn [app]. f_equal. exact (IH s r H).
+Qed.
+
+(* whatever column_info_from_text_span recognises without an alias is written in [a-zA-Z0-9_.\[\]] *)
+Lemma info_some_inK : forall lits x j, as_alias_match (strip_ws LJs x) = None -> info_js lits x = Some j ->
+  forallb inK (strip_ws LJs x) = true.
+Proof.
+  intros lits x j HA H. unfold info_js in H. rewrite HA in H. set (t := strip_ws LJs x) in *. clearbody t.
+  destruct (is_ident t) eqn:I.
+  { exact (forallb_imp _ _ t word_inK (proj1 (is_ident_word t I))). }
+  destruct t as [|c [|d r]]; try discriminate. destruct (tbl_of_ch c) as [tb|] eqn:T; [|discriminate].
+  apply tbl_of_ch_inv in T. subst c. cbn [forallb]. rewrite (word_inK _ (ident_start_word _ (tbl_ch_word tb))). cbn [andb].
+  destruct (N.eqb_spec d DOT) as [->|Hd].
+  - destruct (is_ident r) eqn:Ir; [|discriminate]. change (inK DOT) with true. cbn [andb].
+    exact (forallb_imp _ _ r word_inK (proj1 (is_ident_word r Ir))).
+  - destruct (N.eqb_spec d LBR) as [->|Hd2]; [|discriminate]. change (inK LBR) with true. cbn [andb].
+    destruct (span_by is_digit r) as [ds r2] eqn:S1. destruct (span_by_split _ _ _ _ S1) as [-> Hds].
+    destruct (nonempty ds && str_eqb r2 [RBR]) eqn:C1.
+    + apply andb_true_iff in C1. destruct C1 as [_ C1]. apply str_eqb_eq in C1. subst r2. rewrite forallb_app.
+      rewrite (forallb_imp _ _ ds (fun c h => word_inK c (digit_word c h)) Hds). reflexivity.
+    + destruct (strip_prefix PH_PREFIX (ds ++ r2)) as [r3|] eqn:P; [|discriminate]. apply strip_prefix_split in P. rewrite P.
+      destruct (span_by is_digit r3) as [ks r4] eqn:S2. destruct (span_by_split _ _ _ _ S2) as [-> Hks].
+      destruct (nonempty ks && str_eqb r4 (PH_SUFFIX ++ [RBR])) eqn:C2; [|discriminate].
+      apply andb_true_iff in C2. destruct C2 as [_ C2]. apply str_eqb_eq in C2. subst r4. rewrite !forallb_app.
+      rewrite (forallb_imp _ _ ks (fun c h => word_inK c (digit_word c h)) Hks). reflexivity.
+Qed.
+
+(* a text with a character outside [a-zA-Z0-9_.\[\]] and without an alias at its end is an "other" item *)
+Theorem other_by_char : forall lits x, as_alias_match (strip_ws LJs x) = None ->
+  existsb (fun c => negb (inK c)) (strip_ws LJs x) = true -> info_js lits x = None.
+Proof.
+  intros lits x HA HE. destruct (info_js lits x) as [j|] eqn:E; [|reflexivity]. pose proof (info_some_inK lits x j HA E) as K.
+  exfalso. apply existsb_exists in HE. destruct HE as (c & Hin & Hc). rewrite forallb_forall in K. rewrite (K c Hin) in Hc. discriminate.
+Qed.
